@@ -243,31 +243,49 @@ def corpus():
 def class_style(ctx):
     """`@h.module` / `@h.bundle` class bodies equal the equivalent procedural definition."""
     rep = ctx.rep
-    for k in range(40 if ctx.quick else 400):
+    for k in range(80 if ctx.quick else 800):
         rng = ctx.rng
         attrs = []
         for n in rng.sample(["a", "b", "c", "d", "e"], rng.randint(1, 5)):
-            attrs.append((n, rng.choice(["signal", "port", "bundle", "instance"]), rng.randint(1, 4)))
-        ns, inner = {}, h.Module(name="Inner")
+            # a value may carry a name of its own already — another key of the body, or something else: the key it is stored under wins
+            preset = rng.choice([None, None, "a", "b", "c", "zz", n])
+            attrs.append((n, rng.choice(["signal", "port", "bundle", "instance"]), rng.randint(1, 4), preset))
+        as_bundle = k % 2 == 1
+        if as_bundle:
+            attrs = [a for a in attrs if a[1] in ("signal", "bundle")] or [("a", "signal", 1, "b")]
+        inner = h.Module(name="Inner")
         BB = h.Bundle(name="BB")
         BB.x = h.Signal()
-        def mk(kind, w):
-            return {"signal": lambda: h.Signal(width=w), "port": lambda: h.Port(width=w), "bundle": lambda: BB(), "instance": lambda: inner()}[kind]()
-        cls = type("Top", (), {n: mk(kind, w) for n, kind, w in attrs})
-        mc = h.module(cls)
-        mp = h.Module(name="Top")
-        for n, kind, w in attrs:
-            setattr(mp, n, mk(kind, w))
+
+        def mk(kind, w, preset):
+            return {"signal": lambda: h.Signal(width=w, name=preset), "port": lambda: h.Port(width=w, name=preset),
+                    "bundle": lambda: BB(name=preset), "instance": lambda: h.Instance(of=inner, name=preset)}[kind]()
+
+        cls = type("Top", (), {n: mk(kind, w, preset) for n, kind, w, preset in attrs})
+        mc = (h.bundle if as_bundle else h.module)(cls)
+        mp = (h.Bundle if as_bundle else h.Module)(name="Top")
+        for n, kind, w, preset in attrs:
+            setattr(mp, n, mk(kind, w, preset))
+        parent = "_parent_bundle" if as_bundle else "_parent_module"
+
         def shape(m):
             def d(o):
                 if isinstance(o, h.Signal):
-                    return (type(o).__name__, o.width, str(o.vis), o.name, o._parent_module is m)
-                return (type(o).__name__, o.name, o._parent_module is m)
-            return {v: [(n, d(o)) for n, o in getattr(m, v).items()]
-                    for v in ("ports", "signals", "instances", "bundles", "namespace")}
-        rep.count("class_vs_procedural", json.dumps(attrs))
+                    return (type(o).__name__, o.width, str(o.vis), o.name, getattr(o, parent) is m)
+                return (type(o).__name__, o.name, getattr(o, parent) is m)
+            views = ("signals", "bundles", "namespace") if as_bundle else ("ports", "signals", "instances", "bundles", "namespace")
+            return {v: [(n, d(o)) for n, o in getattr(m, v).items()] for v in views}
+
+        rep.count("class_vs_procedural", json.dumps([as_bundle, attrs]))
         if shape(mc) != shape(mp) or mc.name != mp.name:
-            rep.fail("pred", {"stream": "class_vs_procedural", "attrs": attrs}, {"class": shape(mc), "procedural": shape(mp)})
+            rep.fail("pred", {"stream": "class_vs_procedural", "bundle": as_bundle, "attrs": attrs}, {"class": shape(mc), "procedural": shape(mp)})
+        # every attribute is stored under the key it was written under, and carries that name
+        for n, kind, w, preset in attrs:
+            o = mc.namespace.get(n)
+            if o is None or o.name != n:
+                rep.fail("pred", {"stream": "class_vs_procedural", "bundle": as_bundle, "attrs": attrs},
+                         f"class-body attribute {n!r} is {'missing' if o is None else 'named ' + repr(o.name)}")
+                break
     # sub-classing is rejected
     for base in (h.Module, h.Bundle):
         rep.count("subclassing", base.__name__)
